@@ -101,6 +101,12 @@ func (st *Stats) record(ctx string, op Op, obs string) {
 		kind = fmt.Sprintf("%s-%s", kind, toks[1])
 		ctx = fmt.Sprintf("len2^%d", sz)
 	}
+	switch kind {
+	case "parsedur", "parsearch", "parsearchs", "parsearchsflag", "parsets", "parsetsflag", "printdur", "printts", "printarchs",
+		"newheader", "xffflagbits", "aggflag", "aggparse", "aggname":
+		// stateless text/validation ops: every distinct input is a distinct case
+		ctx = fmt.Sprintf("%x", fnv64([]byte(op.Line)))
+	}
 	st.ByKind[kind]++
 	if op.S {
 		st.SOps++
